@@ -1,5 +1,6 @@
 import Dbg.Driver.Graphs
 import Dbg.Spec.C03
+import Dbg.Lemmas.GraphSym
 /-! C03: edges / links / extension pruning / walks of a finished graph. -/
 namespace Drv.C03
 open Compress Graph Drv.Gr
@@ -133,6 +134,7 @@ def handle (args : List String) (impl : String) : R Ans :=
       let same := adj.all (obs.contains ·) && obs.all (adj.contains ·)
       pure { model,
              verdict := if ¬ edgesSound ig ie then "FAIL:edge-without-K-1-overlap/arrival-side/flip"
+                        else if ¬ ginvOK ig then "FAIL:node-level-invariant-violated(unique-ends/reciprocal-extensions)"
                         else if ¬ edgesSymmetric ig ie then "FAIL:edges-not-symmetric"
                         else if ¬ same then "FAIL:adjacencies-differ-from-the-(K+1)-mers-of-the-reads"
                         else "ok" }
